@@ -105,6 +105,14 @@ inductive Op
   /-- `mol.add_implicit_hydrogens(…)`: the hydrogens that the routine decided to add (property C16),
       as (heavy atom, coordinate payload) in the order they were added -/
   | addHydrogens (hs : List (AtomId × Nat))
+  /-- `mol.substructure(refs)` / `Substructure(mol, refs)`: a view that holds the atom objects the references
+      address now (the molecule is not changed) -/
+  | mkView (refs : List Ref)
+  /-- `view.coords` of a view holding `atoms`: defined iff all of them are still in the molecule (no change) -/
+  | viewRead (atoms : List AtomId)
+  /-- `view.coords = X` / `view.translate(v)` / `view.transform(R)` …: the rows of the view's atoms, located when the
+      access is made, are overwritten with `payloads` (the new coordinates, atom by atom) -/
+  | viewWrite (atoms : List AtomId) (payloads : List Nat)
   deriving Repr, Inhabited
 
 inductive Out
@@ -208,6 +216,41 @@ def growN (bonds : List Bond) (blocked : AtomId) : Nat → List AtomId → List 
 def substituent (m : Mol) (a1 a2 : AtomId) : List AtomId :=
   growN m.bonds a1 m.atoms.length [a2]
 
+/-! ### views: a `Substructure` holds atom objects; rows are located at access time -/
+
+/-- the atom objects a new view holds -/
+def resolveView (m : Mol) : List Ref → Option (List AtomId)
+  | [] => some []
+  | r :: rs =>
+    match resolveAtom m.atoms r, resolveView m rs with
+    | some a, some as => some (a :: as)
+    | _, _ => none
+
+/-- `parent_atom_indices`: `parent.get_atom_index(a)` for every atom of the view, at the time of the access -/
+def viewIndices (m : Mol) : List AtomId → Option (List Nat)
+  | [] => some []
+  | a :: as =>
+    match resolveIndex m.atoms (.obj a), viewIndices m as with
+    | some i, some is => some (i :: is)
+    | _, _ => none
+
+def rowsAt (rows : List (AtomId × Nat)) : List Nat → Option (List Nat)
+  | [] => some []
+  | i :: is =>
+    match rows[i]?, rowsAt rows is with
+    | some r, some ps => some (r.2 :: ps)
+    | _, _ => none
+
+/-- `view.coords`: the payloads of the rows `parent.coords[parent_atom_indices]` -/
+def viewRows (m : Mol) (atoms : List AtomId) : Option (List Nat) :=
+  (viewIndices m atoms).bind (rowsAt m.rows)
+
+/-- `parent.coords[indices] = X`: row `i_k` receives `X[k]` (given to the atom `a_k` the view holds at position `k`);
+with a repeated index the last assignment wins -/
+def writeRows (rows : List (AtomId × Nat)) : List Nat → List AtomId → List Nat → List (AtomId × Nat)
+  | i :: is, a :: as, p :: ps => writeRows (rows.set i (a, p)) is as ps
+  | _, _, _ => rows
+
 /-! ### the step function -/
 
 def step (m : Mol) : Op → Mol × Out
@@ -259,6 +302,13 @@ def step (m : Mol) : Op → Mol × Out
           let acc1 := pushAtom acc0 { id := .own acc.next, elem := 1, label := none } h.2 none
           { acc1 with bonds := acc1.bonds ++ [{ id := acc.next + 1, a1 := h.1, a2 := .own acc.next, parentOk := true }] }
         else acc0) m, .ok)
+  | .mkView refs => (m, if (resolveView m refs).isSome then .ok else .err)
+  | .viewRead atoms => (m, if (viewRows m atoms).isSome then .ok else .err)
+  | .viewWrite atoms payloads =>
+    match viewIndices m atoms with
+    | none => (m, .err)
+    | some is =>
+      if payloads.length = atoms.length then ({ m with rows := writeRows m.rows is atoms payloads }, .ok) else (m, .err)
 
 def run (m : Mol) (ops : List Op) : Mol := ops.foldl (fun acc o => (step acc o).1) m
 
